@@ -90,14 +90,15 @@ def run_case(tier, i, cuts):
     base = httpgen.drive(kind, (data,), close_at_end=closes)
     frags = []
     pos = 0
-    for c in list(cuts) + [len(data)]:
+    rebuf = bool(cuts) and cuts[0] == "rebuf"      # the parser is handed its (empty) receive buffer after construction
+    for c in list(cuts[1:] if rebuf else cuts) + [len(data)]:
         frags.append(data[pos:c])
         pos = c
-    got = httpgen.drive(kind, frags, close_at_end=closes)
+    got = httpgen.drive(kind, frags, close_at_end=closes, rebuf=rebuf)
     if got != base:
         eol = "lf" if ("-lf-" in label) else "crlf"
         fam = "chunked" if "-ch" in label else "close" if label.endswith("close") else "plain"
-        key = "frag:%s:%s:%s:%s%s" % (kind, eol if not label.startswith("pipe") else "pipelined", fam, classify(label, base, got),
+        key = "%s:%s:%s:%s:%s%s" % ("handed-buffer" if rebuf else "frag", kind, eol if not label.startswith("pipe") else "pipelined", fam, classify(label, base, got),
                                       ":100" if "-100-" in label else "")
         return base, got, [(key, "%s fed as %r differs from one-shot: one-shot %r ; fragmented %r" % (
             label, [bytes(f) for f in frags][:4], _brief(base), _brief(got)))]
@@ -157,6 +158,8 @@ def run_job(job, tier, seed):
                 for c in range(b + 1, n):
                     do((a, b, c))
     do(tuple(range(1, n)))
+    do(("rebuf",))
+    do(("rebuf", n // 2))
     # vacuity evidence: one-shot result reflects the generator's intent?
     acc.r.extra["messages"] = 1
     acc.r.extra["oneshot_errored_or_escaped"] = 1 if (base[2] or any(m[0] != "partial" and m[12 if m[0] == "req" else 9] for m in base[0])) else 0
